@@ -218,6 +218,12 @@ func runHistory(r *ev.Run, w *world, hist []int, states, trans map[string]bool) 
 		r.Violation("first-hello-read:"+w.name, fmt.Sprintf("reading the first hello: %v %v", err, p), replay)
 		return
 	}
+	// an application that edits the list it got from ALPNProtos (sorts it, rewrites an entry) must not change what the retry
+	// rules compare the second hello with
+	if l := sess.C.ALPNProtos(); len(l) > 0 {
+		slices.Reverse(l)
+		l[0] = "tampered"
+	}
 	m := model{accepted: w.accept, readPT: !w.accept, writePT: !w.accept}
 	states[m.key()] = true
 	outLen := 0
